@@ -87,6 +87,23 @@ def gen_cases(ctx):
                 dt = rng.choice([1e-8, -3e-9, 2.5e-10, 1e-12])
                 mk("evolve_vs_steps", n, terms, dt, order=order, k=rng.choice([2, 3, 7, 20]))
                 mk("evolve", n, terms, dt, order=order, k=rng.choice([2, 5, 40]))
+    # Hamiltonians that are not empty but whose weights are all exactly 0 / -0 (the start of a sweep, ising_1d_uniform with mu = 0) or far
+    # below the square root of the smallest normal number: they evolve (as the identity, up to e^{-i c t}), they are not an error
+    for n in (1, 2, 3):
+        for w in (0.0, -0.0, 1e-170, -3e-200):
+            terms = [dict(rand_string(rng, n, allow_empty=False), coef=[float2bits(w), float2bits(0.0)]) for _ in range(rng.randrange(1, 4))]
+            for order in (1, 2):
+                mk("step", n, terms, 0.3, order=order)
+                mk("evolve", n, terms, 0.2, order=order, k=rng.choice([0, 1, 4]))
+    # worker counts that do not divide the vector length (3, 5, 6 workers on 16 .. 256 amplitudes): a step is the same operator
+    for k in (3, 5, 6):
+        for n in (4, 5, 7):
+            for fam in ("z_only", "generic"):
+                terms = rand_ham(rng, n if n < 7 else 4, fam)
+                if not terms: continue
+                order = rng.choice([1, 2])
+                mk("step", n, terms, rng.uniform(-0.4, 0.4), order=order, in_pool=k)
+                mk("evolve_vs_steps", n, terms, rng.uniform(-0.2, 0.2), order=order, k=rng.choice([2, 3]), in_pool=k)
     # the order of accuracy needs >= 3 terms with non-commuting outer terms, at two step sizes
     for _ in range(8 * reps):
         n = rng.randrange(2, 5)
